@@ -8,13 +8,16 @@ and per group, for stream and batch edges alike; a node never alters data anothe
 
 What is proved here is about the MODEL (Kap/Model/C10.lean, transcribed from the Go code); `bin/check C10` ties the model
 to the code on every run and evaluates the same documented functions (Kap/Spec/C10.lean) on what the real nodes emitted.
-The aliasing half of the statement has no counterpart over immutable values: it is checked dynamically only.
+The aliasing half of the statement has no counterpart over immutable values: for the node files it is the extracted
+ShallowCopy discipline plus the dynamic sibling-sink check; for the re-buffering layer between the nodes and their consumers
+(edge.BatchBuffer) it is proved on a heap model of the extracted program (last section).
 
 Several per-point theorems are short because model and documented function nearly coincide (where, shift); the
 substance is in `grouped_nodes_are_per_group`, the history statements of the stateful nodes, the map theorems of
 default/delete, `eval_spec` and the flatten theorems.
 -/
 import Kap.Proofs.C10Main
+import Kap.Proofs.C10Buf
 import Kap.Gen.C10
 namespace Kap.Props.C10
 open Kap.C10
@@ -346,5 +349,67 @@ example :
     Alias.noWriteToInput [.write 16 .content (.param 1), .call 21 16 1 (.param 0), .call 19 21 0 .msgcopy] = false ∧
     Alias.noWriteToInput [.write 16 .msgset (.param 1), .call 21 16 1 (.param 0), .call 19 21 0 .msgcopy] = true := by
   decide
+
+/-! ### Re-buffering: what a node has EMITTED is never written again (edge.BatchBuffer, edge/buffered.go)
+
+log(), httpOut(), httpPost(), alert(), influxDBOut() and edge.multiConsumer (in front of join()/union()) collect a batch that
+reaches them as begin / points / end — behind every per-point node of this property on a batch edge — in a `BatchBuffer`
+and hand the buffered message on WITHOUT copying the points slice. The children read it later. Model: Kap/Model/C10Buf.lean
+(a heap of Go slices: append writes in place while len < cap), program regenerated from the Go source. -/
+
+/-- **Every batch a BatchBuffer has emitted holds, for the latest possible reader, exactly the points that entered**:
+for every sequence of begin / point / end messages (also malformed ones), every size hint and every growth policy of
+`append`, reading ALL emitted messages in the final heap gives, per `end`, the latest begin message and the points that
+came in since — nothing of a later batch, nothing lost. -/
+theorem batchBuffer_emitted_batches_stable {α β : Type} (grow : Nat → Nat) (ops : List (Buf.Op α β)) :
+    Buf.observeLate (Buf.run Buf.goodProg grow ops) = (Buf.specBuffered ops).map (fun r => (r.1, r.2.map some)) := by
+  have := Buf.observeLate_runFrom grow ops ({} : Buf.St α β) none [] Buf.inv_init
+  simpa [Buf.run, Buf.specBuffered, Buf.observeLate] using this
+
+/-- … in particular **no later input changes what has been emitted**: after any further messages the consumer of the
+batches emitted so far finds in them what it would have found at once. -/
+theorem batchBuffer_later_input_never_changes_emitted {α β : Type} (grow : Nat → Nat) (ops more : List (Buf.Op α β)) :
+    (Buf.observeLate (Buf.run Buf.goodProg grow (ops ++ more))).take (Buf.observeLate (Buf.run Buf.goodProg grow ops)).length
+      = Buf.observeLate (Buf.run Buf.goodProg grow ops) := by
+  rw [batchBuffer_emitted_batches_stable, batchBuffer_emitted_batches_stable]
+  obtain ⟨rest, h⟩ := Buf.specGo_append ops more (none : Option β) ([] : List α)
+  simp only [Buf.specBuffered, h, List.map_append, List.length_map]
+  rw [List.take_left' (by simp)]
+
+/-- **edge/buffered.go IS that program**: the methods of BatchBuffer as extract/c10alias reads them from the source on
+every run (statement by statement, anything unrecognised = `.unknown`) are exactly `goodProg` — BeginBatch starts every
+batch on a slice obtained from `make`, BatchPoint only appends, BufferedBatchMessage only emits — and BatchBuffer has no
+other method. `r.points = r.points[:0]` (re-using the array of the batch just handed on) makes this fail to check. -/
+theorem batchBuffer_source_is_the_proved_program :
+    Kap.Gen.C10.bufferProg = Buf.goodProg ∧ Kap.Gen.C10.bufferOtherMethods = [] := ⟨rfl, rfl⟩
+
+/-- the statement about the code as extracted -/
+theorem batchBuffer_extracted_emitted_batches_stable {α β : Type} (grow : Nat → Nat) (ops : List (Buf.Op α β)) :
+    Buf.observeLate (Buf.run Kap.Gen.C10.bufferProg grow ops) = (Buf.specBuffered ops).map (fun r => (r.1, r.2.map some)) := by
+  rw [batchBuffer_source_is_the_proved_program.1]; exact batchBuffer_emitted_batches_stable grow ops
+
+/-- **All users of BatchBuffer are known**: the files of the root package and of package edge that mention it are log.go,
+http_out.go, http_post.go (driven by the harness as carriers), edge/consumer.go (multiConsumer, driven through union()),
+alert.go and influxdb_out.go (same three calls in BeginBatch / BatchPoint / EndBatch; their own output is C11/C12's and
+C07's). A new user makes this fail to check and has to be looked at. -/
+theorem batchBuffer_users_are_known :
+    Kap.Gen.C10.bufferUsers = ["alert.go", "edge/consumer.go", "http_out.go", "http_post.go", "influxdb_out.go", "log.go"] := by decide
+
+/-- The discipline is needed — counterexample on the model for the "allocation optimisation" that keeps the backing array
+when it is large enough (`if hint > cap(r.points) { make } else { r.points[:0] }`): two batches of three points, the
+first emitted message reads [11, 12, 13] once the second has been buffered. -/
+theorem batchBuffer_reusing_the_slice_overwrites_emitted :
+    ∃ ops : List (Buf.Op Nat Unit),
+      Buf.observeLate (Buf.run Buf.reuseProg Buf.goGrow ops) ≠ (Buf.specBuffered ops).map (fun r => (r.1, r.2.map some)) :=
+  ⟨[.begin () 3, .point 1, .point 2, .point 3, .end_, .begin () 3, .point 11, .point 12, .point 13, .end_], by decide⟩
+
+/-- non-vacuity: on that input the program of the source emits [1,2,3] and [11,12,13], and the optimised one does not -/
+example :
+    Buf.observeLate (Buf.run Buf.goodProg Buf.goGrow
+      ([.begin () 3, .point 1, .point 2, .point 3, .end_, .begin () 3, .point 11, .point 12, .point 13, .end_] : List (Buf.Op Nat Unit)))
+      = [(some (), [some 1, some 2, some 3]), (some (), [some 11, some 12, some 13])] ∧
+    Buf.observeLate (Buf.run Buf.reuseProg Buf.goGrow
+      ([.begin () 3, .point 1, .point 2, .point 3, .end_, .begin () 3, .point 11, .point 12, .point 13, .end_] : List (Buf.Op Nat Unit)))
+      = [(some (), [some 11, some 12, some 13]), (some (), [some 11, some 12, some 13])] := by decide
 
 end Kap.Props.C10
